@@ -371,7 +371,19 @@ def main():
         vals = list(tp.map(validate, range(len(allh))))
     disagreements = []
     for i, vo in enumerate(vals):
-        h = allh[i]; validated += vo['validated']; disagreements += vo['disagree']
+        h = allh[i]; validated += vo['validated']
+        for d in vo['disagree']:
+            ne = d['native']['end'] or ''
+            if ne.startswith('assert:') or ne in ('asan', 'ubsan', 'libassert'):
+                # the solver-generated input of a path the engine found clean makes the NATIVE g++ build fail an assertion of the
+                # harness (or trip a sanitizer): behaviour that differs between the clang IR and the g++ build, e.g. an unspecified
+                # order of evaluation.  The native run is the real code: reported as a violation with this replay.
+                ent = {'harness': h.key, 'kind': 'native-' + ('assert' if ne.startswith('assert:') else 'ub'), 'id': ne + ' (native g++ build only; the clang-IR path holds)',
+                       'inputs': None, 'params': h.params, 'replay': d['replay'], 'native': ne, 'fn': h.name}
+                kf = match_known(known, h.name, {'kind': ent['kind'], 'id': ent['id'], 'inputs': {}})
+                if kf and not kf.get('when_z3'): ent['finding'] = kf['what']; knownhits.append(ent)
+                else: violations.append(ent)
+            else: disagreements.append(d)
         for v, rp, nat, conf in vo['viol']:
             ent = {'harness': h.key, 'kind': v['kind'], 'id': v['id'], 'inputs': v['inputs'], 'params': h.params, 'replay': rp, 'native': nat['end'], 'fn': v['fn']}
             if not conf:
